@@ -355,10 +355,12 @@ def bounded_webvtt(ctx, b):
             return ok, {"cues": [(cu["lines"], cu["settings"]) for cu in cues], "expected": [g[0] for g in groups], "expected_settings": want}
         b.guard(("groups", tuple(repr(x) for x in seq), with_breaks), one, sample={"layouts": [repr(x) for x in seq], "breaks_between_groups": with_breaks})
     # cue settings survive WebVTT -> WebVTT
-    for s in ["align:left position:10%", "line:3", "size:50% align:end position:5%,line-left", "vertical:rl"]:
+    for s in ["align:left position:10%", "line:3", "size:50% align:end position:5%,line-left", "vertical:rl",
+              # settings may be separated by several blanks or tabs: written back as they were read
+              "align:right  position:25%  line:75%", "align:right\tposition:25%", "line:10% \t size:30%", "region:fred  align:left"]:
         doc = f"WEBVTT\n\n00:01.000 --> 00:02.000 {s}\nhello\n"
 
-        def one():
+        def one(s=s, doc=doc):
             out = WebVTTWriter().write(WebVTTReader().read(doc))
             return f"00:01.000 --> 00:02.000 {s}\n" in out, {"output": out}
         b.guard(("verbatim", s), one, sample=doc)
